@@ -1,5 +1,6 @@
 import SR.Proofs.Checker.Control
 import SR.Proofs.Checker.Once
+import SR.Proofs.Checker.BfsDepth
 /-!
 # C12 (checker-machine part) — run controls are honoured
 
@@ -75,5 +76,18 @@ theorem C12_timeout_neutral (cs : List Choice) (hc : ∀ c ∈ cs, c ≠ Choice.
     run (noTimeout P) cs = run P cs := by
   unfold run
   exact runFrom_noTimeout (P := P) cs hc _
+
+/-- **single-threaded BFS still evaluates every state nearer than the depth limit**: for every FIFO single-worker
+    run (the BFS scheduler is one, `C13_scheduler_is_fifo`) with `target_max_depth = d` that completes without any
+    other stop reason (no worker stopped, not everything discovered), every state that has an in-boundary path of
+    fewer than `d` states from an initial state has been evaluated. -/
+theorem C12_bfs_depth_complete (hinj : ∀ a b, P.M.Reach a → P.M.Reach b → P.key a = P.key b → a = b)
+    (cs : List Choice) (hf : FifoRun P (init P.M P.props P.key) cs)
+    (hq : Quiescent (run P cs)) (hstop : (run P cs).stopped = false) (hall : allDiscovered P (run P cs) = false)
+    (d : Nat) (hd : P.cfg.maxDepth = some d) :
+    ∀ q t, P.M.IsPath q → q.getLast? = some t → q.length < d → t ∈ visitedStates (run P cs) := by
+  intro q t hq' hl hlt
+  have := bfs_depth_complete (P := P) hinj cs hf hq ⟨hstop, hall⟩ d hd q t hq' hl hlt
+  exact (ninv_run (P := P) cs).actVis _ (List.mem_append_right _ this)
 
 end SR.C12M
